@@ -1,2 +1,59 @@
-From Cmr Require Import Base Det CtuModel.
-Theorem placeholder_C15 : True. Proof. exact I. Qed.
+(* Properties_C15.v — C15: complement operations and the complement-TU test follow their definition.
+   Only statements closed by `exact`, with Print Assumptions beneath; the proofs are in CtuProofs.v. *)
+From Cmr Require Import Base Det CtuModel BaseProofs CtuProofs.
+Local Open Scope Z_scope.
+
+(* The entry-wise flip rule (what ctu.c implements, and what the judge compares the library with) equals
+   the definition of doc/ctu.md: a row complement followed by a column complement, each optional. *)
+Theorem C15_model_is_definition : forall m n M r c,
+  wf_mat m n M = true -> is_binary M = true -> opt_lt r m = true -> opt_lt c n = true ->
+  complement_model m n M r c = complement_spec m n M r c.
+Proof. exact complement_model_eq_spec. Qed.
+Print Assumptions C15_model_is_definition.
+
+(* doing it twice restores the matrix *)
+Theorem C15_involution : forall m n M r c,
+  wf_mat m n M = true -> is_binary M = true -> opt_lt r m = true -> opt_lt c n = true ->
+  complement_spec m n (complement_spec m n M r c) r c = M.
+Proof. exact complement_spec_involution. Qed.
+Print Assumptions C15_involution.
+
+(* the one-call row-and-column form equals the two single operations in either order *)
+Theorem C15_rc_is_sequence : forall m n M r c,
+  wf_mat m n M = true -> is_binary M = true -> opt_lt r m = true -> opt_lt c n = true ->
+  complement_spec m n M r c = opt_row_compl m n (opt_col_compl m n M c) r.
+Proof. exact complement_rc_commute. Qed.
+Print Assumptions C15_rc_is_sequence.
+
+(* whenever the extracted judge accepts a record of CMRctuComplementRowColumn, the call succeeded and the
+   returned sparse matrix is well-formed, of the right shape, and equal to the definition *)
+Theorem C15_judge_complement_sound : forall m n M r c rc rest rec,
+  ctu_compl_input rec = Some ((m, n, M, r, c, rc), rest) ->
+  is_binary M = true -> opt_lt r m = true -> opt_lt c n = true -> judge_ctu_compl rec = 0 ->
+  rc = 0 /\ exists s, dcsr rest = Some (s, []) /\ csr_wf s = true /\ c_rows s = m /\ c_cols s = n /\
+                      dense_of_csr s = complement_spec m n M r c.
+Proof. exact judge_ctu_compl_sound'. Qed.
+Print Assumptions C15_judge_complement_sound.
+
+(* the complement-TU oracle is the definition (all (rows+1)(columns+1) complements are TU; tu_bf is the
+   brute-force TU oracle proved equal to the determinant definition in Properties_C01) *)
+Theorem C15_ctu_oracle_is_definition : forall m n M,
+  ctu_bf m n M = true <->
+  (forall r c, opt_lt r m = true -> opt_lt c n = true -> tu_bf m n (complement_model m n M r c) = true).
+Proof. exact ctu_bf_spec. Qed.
+Print Assumptions C15_ctu_oracle_is_definition.
+
+(* whenever the judge accepts a record of CMRctuTest: the verdict equals the definition and, on "no", the
+   reported row/column (or none) produce a complement that is not TU *)
+Theorem C15_judge_test_sound : forall rec m n M rc v r c rest,
+  ctu_test_input rec = Some ((m, n, M, rc, v, r, c), rest) ->
+  is_binary M = true -> judge_ctu_test rec = 0 ->
+  rc = 0 /\ v = ctu_bf m n M /\
+  (v = false -> opt_lt r m = true /\ opt_lt c n = true /\ tu_bf m n (complement_model m n M r c) = false).
+Proof. exact judge_ctu_test_sound. Qed.
+Print Assumptions C15_judge_test_sound.
+
+(* non-vacuity: the hypotheses are met by a concrete record that the judge accepts, and the judge is not
+   trivially accepting *)
+Example C15_nonvacuous : judge_ctu_compl ex_record = 0 /\ complement_model 2 2 [[1;1];[1;1]] (Some 0%nat) (Some 0%nat) = [[1;0];[0;0]].
+Proof. split; vm_compute; reflexivity. Qed.
